@@ -45,6 +45,16 @@ CHECKS = {
         note="Trusted: reference matcher, Hypothesis. An operand-level $not needs an operand to consume (no match on operand-less instructions).",
         ref="DESIGN.md 4/C04",
     ),
+    "C05": dict(
+        cat="exploration",
+        technique="property-based testing (Hypothesis): spine rules with instruction/operand/register-family captures, listings derived from a drawn binding, defining-site and later-site mutators, reference matcher with environments",
+        text="Rules with 1-3 capture names of every kind whose listing is instantiated from a drawn binding and then mutated at a defining or later occurrence "
+        "(prefix/extension of the bound text, other family member, wrong width, look-alike non-member, operand-less defining instruction, swapped names); capture-free "
+        "$or/$not/times groups are interleaved so that stray capturing parentheses shift the numbering. Verdict and spans are compared with a reference matcher that "
+        "threads an environment and uses an explicit architectural register table.",
+        note="Trusted: reference matcher incl. the register table, Hypothesis. Deref-field captures are outside the statement; .8H exists only for &genreg.",
+        ref="DESIGN.md 4/C05",
+    ),
 }
 
 NOT_APPLICABLE = []
